@@ -21,11 +21,30 @@ def sh(cmd, cwd=None, env=None, timeout=1800):
 
 
 def main():
-    out, k, name = sys.argv[1], sys.argv[2], sys.argv[3]
-    meta = json.load(open(os.path.join(out, "meta%s.json" % k)))
-    checks = sys.argv[4:] or [meta["property"]]
-    patch = os.path.join(out, "patch%s.diff" % k)
-    demo = os.path.join(out, "demo%s_test.go" % k)
+    if sys.argv[1] == "--again":
+        # re-run a kept seed: seedtest.py --again <name> [--src <dir holding seeded/>] [CHECK ...]
+        name = sys.argv[2]
+        rest = sys.argv[3:]
+        src = V
+        if rest[:1] == ["--src"]:
+            src, rest = rest[1], rest[2:]
+        sd = os.path.join(src, "seeded", name)
+        old = json.load(open(os.path.join(sd, "meta.json")))
+        meta = {"property": old["property"], "summary": old.get("summary"), "needs": old.get("needs"),
+                "files": old.get("files"), "ran": old.get("agent_ran")}
+        checks = rest or sorted(set([old["property"]] + list(old.get("checks", {}))))
+        import tempfile
+        tmp = tempfile.mkdtemp(prefix="seedagain_")
+        patch = os.path.join(tmp, "patch.diff")
+        demo = os.path.join(tmp, "demo_test.go")
+        shutil.copy(os.path.join(sd, "patch.diff"), patch)
+        shutil.copy(os.path.join(sd, "demo_test.go"), demo)
+    else:
+        out, k, name = sys.argv[1], sys.argv[2], sys.argv[3]
+        meta = json.load(open(os.path.join(out, "meta%s.json" % k)))
+        checks = sys.argv[4:] or [meta["property"]]
+        patch = os.path.join(out, "patch%s.diff" % k)
+        demo = os.path.join(out, "demo%s_test.go" % k)
     wt = "/tmp/wt_seed_%s" % name
     sh("git -C /repo worktree remove --force %s" % wt)
     rc, o = sh("git -C /repo worktree add --detach %s" % wt)
